@@ -14,9 +14,10 @@ EXPLANATION = (
     "emitted by the derived serialiser, and a settings argument overrides the stored one; (R3) every fallible call of "
     "load_from_file before the constructor is propagated with `?`, none unwrapped; the deserialised P,q,A,b,cones "
     "reach the constructor only after a dominating validator whose decision table rejects every violated format / "
-    "dimension relation, and the settings are validated.")
+    "dimension relation, and the settings are validated; (R4) the dimension part of CscMatrix::check_format accepts a "
+    "matrix only if len(rowval)=len(nzval), len(colptr)=n+1 and colptr[n]=nnz hold as equalities and colptr is monotone.")
 ASSUMPTIONS = ['rustc MIR construction and trait resolution are correct',
-               'serde_json reports malformed / truncated text as Err', 'CscMatrix::check_format accepts only well-formed matrices (C16 territory)']
+               'serde_json reports malformed / truncated text as Err', 'the per-column part of CscMatrix::check_format (sorted, in-range row indices) is right (C16 territory)']
 
 EXPORT = [
     ('lrscale', 'P', ['self.data.equilibration.dinv', 'self.data.equilibration.dinv']),
@@ -215,6 +216,59 @@ def load_discipline(rep, F, G, tag):
     R.guard(body)
 
 
+def matrix_validator(rep, F, tag):
+    """load_from_file vets the matrices of an untrusted file with CscMatrix::check_format; its dimension part must
+    accept a matrix only if the five consistency relations hold *as equalities* (a one-sided test lets a short
+    colptr end through to the constructor, which then panics)."""
+    R = rep.rule('C19.R4', 'CscMatrix::check_dimensions returns Ok only when len(rowval)=len(nzval), len(colptr)=n+1, colptr[n]=nnz hold as equalities and colptr is monotone; check_format starts with it')
+
+    def body():
+        f = F.one(name='check_dimensions', adt='CscMatrix')
+        want = {
+            'rowval~nzval': [{'len(self.nzval)', 'len(self.rowval)'}],
+            'colptr~n': [{'self.n', 'subwithoverflow(len(self.colptr), 1_usize).0'}, {'self.n', 'sub(len(self.colptr), 1_usize)'},
+                         {'len(self.colptr)', 'addwithoverflow(self.n, 1_usize).0'}, {'len(self.colptr)', 'add(self.n, 1_usize)'}],
+            'colptr[n]~nnz': [{'index(self.colptr, self.n)', 'len(self.rowval)'}, {'self.colptr[self.n]', 'len(self.rowval)'},
+                              {'index(self.colptr, self.n)', 'len(self.nzval)'}, {'self.colptr[self.n]', 'len(self.nzval)'}],
+        }
+        n_ok = 0
+        for val, ret, ev, tr in Walker(f, cut_loops=True).leaves():
+            if ret[0] != 's' or not str(ret[1]).startswith('Result::Ok'):
+                continue
+            n_ok += 1
+            for rel, forms in want.items():
+                good = False
+                for k, v in val.items():
+                    if k.startswith(('ne(', 'eq(')):
+                        args = set(split_args(k))
+                        if args in forms and ((k.startswith('ne(') and v == 0) or (k.startswith('eq(') and v == 1)):
+                            good = True
+                R.check(good, 'accepts-only|%s%s' % (rel, tag),
+                        'check_dimensions returns Ok on a path that has not established %s as an equality (tests on the path: %s)' % (rel, sorted(val)), f.loc())
+            mono = [(k, v) for k, v in val.items() if 'windows(self.colptr' in k]
+            R.check(bool(mono) and all(v == 0 for k, v in mono), 'accepts-only|colptr-monotone' + tag, 'check_dimensions returns Ok without the colptr monotonicity test', f.loc())
+            ne = [(k, v) for k, v in val.items() if k.startswith('is_empty(self.colptr') or k in ('eq(len(self.colptr), 0_usize)', 'ne(len(self.colptr), 0_usize)')]
+            R.check(bool(ne), 'accepts-only|colptr-nonempty' + tag, 'check_dimensions indexes colptr without testing that it is non-empty', f.loc())
+        R.check(n_ok >= 1, 'ok-paths' + tag, 'no Ok path in check_dimensions (anchor drift)', f.loc())
+        # the monotonicity closure compares neighbours strictly the right way round
+        clos = F.closures_of.get(f.key, [])
+        ok = False
+        for g in clos:
+            r = canon(g.sym_local(0))
+            if r in ('lt(arg2[1_usize], arg2[0_usize])', 'lt(index(arg2, 1_usize), index(arg2, 0_usize))'):
+                ok = True
+        R.check(ok, 'monotone-closure' + tag, 'the colptr monotonicity test is not c[0] > c[1] (%s)' % [canon(g.sym_local(0)) for g in clos], f.loc())
+        cf = F.one(name='check_format', adt='CscMatrix')
+        cd = calls_named(cf, 'check_dimensions')
+        R.check(len(cd) == 1, 'format-starts-with-dimensions' + tag,
+                'check_format does not call check_dimensions', cf.loc())
+        if len(cd) == 1:
+            others = [c for c in cf.calls if c.callee.name in ('windows', 'all', 'index') and not cf.dominates(cd[0].bb, c.bb)]
+            R.check(not others, 'dimensions-first' + tag, 'check_format reads the index arrays before check_dimensions has passed', cf.loc())
+
+    R.guard(body)
+
+
 def run(ctx, rep, tier):
     for cfg in CONFIGS:
         F = ctx.facts(cfg)
@@ -224,5 +278,6 @@ def run(ctx, rep, tier):
         export(rep, F, E, tag)
         settings_roundtrip(rep, F, tag)
         load_discipline(rep, F, G, tag)
+        matrix_validator(rep, F, tag)
     from . import units_rules
     units_rules.c19(ctx, rep)
